@@ -318,24 +318,73 @@ fn nc_list(ctx: &[bool], is: &[I]) -> bool {
     })
 }
 
-/// fixed programs: `continue` from inside a nested block / if (the instructions after the nested
-/// construct are prepaid by the loop body's metered block and skipped by the continue)
-fn corpus() -> Vec<Vec<F>> {
-    let dec = |c: u32| vec![I::LocalGet(c), I::Const(1), I::Bin(1), I::LocalSet(c)];
-    let bump = vec![I::GlobalGet(0), I::Const(1), I::Bin(0), I::GlobalSet(0)];
-    let mut b1 = dec(1);
-    b1.push(I::Block(vec![I::LocalGet(1), I::BrIf(1), I::Nop]));
-    b1.extend(bump.clone());
-    let p1 = vec![F { params: 1, locals: 1, result: true, body: vec![I::Const(3), I::LocalSet(1), I::Loop(b1), I::GlobalGet(0)] }];
-    let mut b2 = dec(1);
-    b2.push(I::LocalGet(0));
-    b2.push(I::If(vec![I::LocalGet(1), I::BrIf(1), I::Nop], vec![I::Nop]));
-    b2.extend(bump.clone());
-    b2.push(I::LocalGet(1));
-    b2.push(I::BrIf(0));
-    let p2 = vec![F { params: 1, locals: 1, result: true, body: vec![I::Const(4), I::LocalSet(1), I::Loop(b2), I::GlobalGet(0)] }];
-    vec![p1, p2]
+/// The deterministic boundary family (identical for every seed): one program per shape the
+/// metered-block algorithm distinguishes, each run with the arguments 0, 1 and 7.
+fn corpus() -> Vec<(&'static str, Vec<F>)> {
+    use I::*;
+    let dec = |c: u32| vec![LocalGet(c), Const(1), Bin(1), LocalSet(c)];
+    let bump = |g: u32| vec![GlobalGet(g), Const(1), Bin(0), GlobalSet(g)];
+    let main1 = |locals: u32, body: Vec<I>| vec![F { params: 1, locals, result: true, body }];
+    let cat = |parts: Vec<Vec<I>>| -> Vec<I> { parts.into_iter().flatten().collect() };
+    let mut v: Vec<(&'static str, Vec<F>)> = Vec::new();
+    // continue out of a nested block / if / inner loop: prepaid-and-skipped rest of the loop body
+    v.push(("nested_continue_block", main1(1, cat(vec![vec![Const(3), LocalSet(1), Loop(cat(vec![dec(1), vec![Block(vec![LocalGet(1), BrIf(1), Nop])], bump(0)]))], vec![GlobalGet(0)]]))));
+    v.push(("nested_continue_if", main1(1, cat(vec![vec![Const(4), LocalSet(1), Loop(cat(vec![dec(1), vec![LocalGet(0), If(vec![LocalGet(1), BrIf(1), Nop], vec![Nop])], bump(0), vec![LocalGet(1), BrIf(0)]]))], vec![GlobalGet(0)]]))));
+    v.push(("nested_continue_inner_loop", main1(2, cat(vec![
+        vec![Const(3), LocalSet(1), Loop(cat(vec![dec(1), vec![Const(2), LocalSet(2), Loop(cat(vec![dec(2), vec![LocalGet(1), LocalGet(0), Bin(2), BrIf(1)], bump(1), vec![LocalGet(2), BrIf(0)]]))], bump(0), vec![LocalGet(1), BrIf(0)]]))],
+        vec![GlobalGet(0), GlobalGet(1), Bin(0)],
+    ]))));
+    // straight line: every arithmetic / comparison operator, tee, drop, globals, memory in bounds
+    let mut straight = vec![LocalGet(0), Const(5), Bin(0), LocalSet(1)];
+    for o in 0..14u8 {
+        if o == 3 || o == 4 {
+            straight.extend(vec![LocalGet(1), Const(3), Bin(o), LocalSet(1)]);
+        } else {
+            straight.extend(vec![LocalGet(1), LocalGet(0), Bin(o), LocalSet(1)]);
+        }
+    }
+    straight.extend(vec![LocalGet(1), Eqz, LocalTee(1), Drop, Nop, Const(3), Const(255), Bin(5), LocalGet(0), Store(2), Const(3), Const(255), Bin(5), Load(2), GlobalSet(2), GlobalGet(2)]);
+    v.push(("straight_line", main1(1, straight)));
+    // blocks without branches: everything merges into the function's first metered block
+    v.push(("block_merge_nested", main1(0, cat(vec![vec![Block(cat(vec![bump(0), vec![Block(bump(1))], bump(0)]))], bump(2), vec![GlobalGet(0)]]))));
+    // br_if to the block's own label: prefix merged, tail metered on its own, parent block continues
+    v.push(("block_brif_self", main1(0, cat(vec![vec![Block(cat(vec![bump(0), vec![LocalGet(0), BrIf(0)], bump(1)]))], bump(2), vec![GlobalGet(1)]]))));
+    // br_if out of the inner block to the outer one: the outer block's metered block is closed at the inner end
+    v.push(("block_escape", main1(0, cat(vec![vec![Block(cat(vec![vec![Block(cat(vec![bump(0), vec![LocalGet(0), BrIf(1)], bump(1)]))], bump(2)]))], bump(0), vec![GlobalGet(2)]]))));
+    // unconditional br with dead code behind it
+    v.push(("br_dead_code", main1(0, cat(vec![vec![Block(cat(vec![bump(0), vec![Br(0)], bump(1), vec![Nop]]))], vec![GlobalGet(1)]]))));
+    // loops: back edge at the end only; continue in the middle of the loop body (not nested)
+    v.push(("loop_back_edge", main1(1, cat(vec![vec![Const(3), LocalSet(1), Loop(cat(vec![dec(1), bump(0), vec![LocalGet(1), BrIf(0)]]))], vec![GlobalGet(0)]]))));
+    v.push(("loop_mid_continue", main1(1, cat(vec![vec![Const(3), LocalSet(1), Loop(cat(vec![dec(1), vec![LocalGet(1), BrIf(0)], bump(0)]))], vec![GlobalGet(0)]]))));
+    // if with and without else, taken and not taken (argument 0 / non-zero)
+    v.push(("if_else", main1(0, cat(vec![vec![LocalGet(0), If(bump(0), bump(1))], bump(2), vec![GlobalGet(0)]]))));
+    v.push(("if_no_else", main1(0, cat(vec![vec![LocalGet(0), If(bump(0), vec![])], bump(2), vec![GlobalGet(0)]]))));
+    v.push(("if_empty_then", main1(0, cat(vec![vec![LocalGet(0), If(vec![], bump(1))], vec![GlobalGet(1)]]))));
+    // br out of an if to an enclosing block
+    v.push(("if_escape", main1(0, cat(vec![vec![Block(cat(vec![vec![LocalGet(0), If(vec![Br(1)], vec![Nop])], bump(0)]))], bump(1), vec![GlobalGet(0)]]))));
+    // return from inside nested constructs
+    v.push(("return_nested", main1(0, cat(vec![vec![Block(cat(vec![vec![LocalGet(0), If(vec![Const(42), Return], vec![])], bump(0)]))], vec![GlobalGet(0)]]))));
+    // calls: parameters, locals, result / no result, an empty function
+    v.push((
+        "call_chain",
+        vec![
+            F { params: 1, locals: 0, result: true, body: vec![LocalGet(0), Const(2), Call(1), Call(3), Call(2), GlobalGet(0), Bin(0)] },
+            F { params: 2, locals: 3, result: true, body: vec![LocalGet(0), LocalGet(1), Bin(0), LocalTee(4), LocalGet(4), Bin(2)] },
+            F { params: 0, locals: 0, result: false, body: bump(0) },
+            F { params: 0, locals: 0, result: false, body: vec![] },
+        ],
+    ));
+    // traps: unreachable, division by zero, memory out of bounds (load and store), each only for some arguments
+    v.push(("trap_unreachable", main1(0, cat(vec![bump(0), vec![LocalGet(0), If(vec![Unreachable], vec![])], bump(1), vec![GlobalGet(0)]]))));
+    v.push(("trap_div_zero", main1(0, cat(vec![bump(0), vec![Const(10), LocalGet(0), Bin(3)]]))));
+    v.push(("trap_rem_zero", main1(0, cat(vec![bump(0), vec![Const(10), LocalGet(0), Bin(4)]]))));
+    v.push(("trap_load_oob", main1(0, cat(vec![bump(0), vec![LocalGet(0), Const(255), Bin(5), Load((MEM_CELLS - 1) as u32)]]))));
+    v.push(("trap_store_oob", main1(0, cat(vec![bump(0), vec![LocalGet(0), Const(255), Bin(5), Const(9), Store((MEM_CELLS - 1) as u32), GlobalGet(0)]]))));
+    // a function whose only instructions cost nothing
+    v.push(("zero_cost_body", vec![F { params: 1, locals: 0, result: true, body: vec![LocalGet(0), Call(1), LocalGet(0)] }, F { params: 1, locals: 0, result: false, body: vec![Return] }]));
+    v
 }
+const FAMILY_ARGS: [u64; 3] = [0, 1, 7];
 
 fn gen_prog(rng: &mut Rng) -> Vec<F> {
     let nf = rng.range(1, 4) as usize;
@@ -791,6 +840,43 @@ fn run_wasmi(bytes: &[u8], arg: u64, limit: u64) -> Result<Run, String> {
     Ok(Run { result, globals, mem_hash, gas })
 }
 
+// counts of the deterministic family on the unmodified code (a class that stops being generated, or
+// whose outcome moves, fails the run)
+const FAMILY_FLOORS: &[(&str, u64)] = &[
+    ("fam|block_brif_self|value", 3),
+    ("fam|block_escape|value", 3),
+    ("fam|block_merge_nested|value", 3),
+    ("fam|br_dead_code|value", 3),
+    ("fam|call_chain|value", 3),
+    ("fam|if_else|value", 3),
+    ("fam|if_empty_then|value", 3),
+    ("fam|if_escape|value", 3),
+    ("fam|if_no_else|value", 3),
+    ("fam|loop_back_edge|value", 3),
+    ("fam|loop_mid_continue|value", 3),
+    ("fam|nested_continue_block|overcharged", 3),
+    ("fam|nested_continue_block|value", 3),
+    ("fam|nested_continue_if|overcharged", 2),
+    ("fam|nested_continue_if|value", 3),
+    ("fam|nested_continue_inner_loop|overcharged", 2),
+    ("fam|nested_continue_inner_loop|value", 3),
+    ("fam|return_nested|value", 3),
+    ("fam|straight_line|value", 3),
+    ("fam|trap_div_zero|trap", 1),
+    ("fam|trap_div_zero|value", 2),
+    ("fam|trap_load_oob|trap", 2),
+    ("fam|trap_load_oob|value", 1),
+    ("fam|trap_rem_zero|trap", 1),
+    ("fam|trap_rem_zero|value", 2),
+    ("fam|trap_store_oob|overcharged", 2),
+    ("fam|trap_store_oob|trap", 2),
+    ("fam|trap_store_oob|value", 1),
+    ("fam|trap_unreachable|overcharged", 2),
+    ("fam|trap_unreachable|trap", 2),
+    ("fam|trap_unreachable|value", 1),
+    ("fam|zero_cost_body|value", 3),
+];
+
 fn main() {
     let args = Args::parse();
     let mut report = Report::new(
@@ -800,14 +886,16 @@ fn main() {
          non-trivial = the program has a loop or a branch and at least 3 metering calls were executed; distinct by program text + argument",
     );
     let mut cw = CaseWriter::new("RV.Corr.C46_run RV.Model.C46_MiniWasm", "check");
-    assert_eq!(corpus().len(), 2);
+
     let root = Rng::new(args.seed);
     let cfg = WasmValidatorConfigV1::new();
     let max_stack = cfg.max_stack_size();
-    for i in 0..args.cases {
+    let n_fam = corpus().len();
+    for i in 0..(n_fam + args.cases) {
         let mut rng = root.fork(i as u64);
         let fixed = corpus();
-        let p = if i < fixed.len() { fixed[i].clone() } else { gen_prog(&mut rng) };
+        let in_family = i < fixed.len();
+        let p = if in_family { fixed[i].1.clone() } else { gen_prog(&mut rng) };
         let is_nc = p.iter().all(|f| nc_list(&[false], &f.body));
         report.count(if is_nc { "programs_without_nested_continue" } else { "programs_with_nested_continue" });
         let plain = emit(&p, None);
@@ -836,7 +924,8 @@ fn main() {
             }
         };
         let structured = p.iter().any(|f| format!("{:?}", f.body).contains("Loop") || format!("{:?}", f.body).contains("Br"));
-        for arg in [rng.below(4), rng.next_u64()] {
+        let argv: Vec<u64> = if in_family { FAMILY_ARGS.to_vec() } else { vec![rng.below(4), rng.next_u64()] };
+        for arg in argv {
             let r0 = run_wasmi(&plain, arg, u64::MAX);
             let r1 = run_wasmi(&gas_only, arg, u64::MAX);
             let r2 = run_wasmi(&full, arg, u64::MAX);
@@ -889,6 +978,12 @@ fn main() {
                 Err(e) => e.clone(),
             };
             report.count(&format!("outcome_{}", class));
+            if in_family {
+                report.count(&format!("fam|{}|{}", fixed[i].0, if r0.result.is_ok() { "value" } else { "trap" }));
+                if rn.gas < r1.gas {
+                    report.count(&format!("fam|{}|overcharged", fixed[i].0));
+                }
+            }
             let canon = format!("{:?}|{}", p, arg);
             report.case(&canon, structured && r1.gas > 3 * 1372);
             let obs = match &r0.result {
@@ -917,6 +1012,9 @@ fn main() {
     report.floor("metering_calls_injected", n);
     report.floor("overcharged_runs_nested_continue", 1);
     report.floor("programs_without_nested_continue", n / 4);
+    for (k, m) in FAMILY_FLOORS {
+        report.floor(k, *m);
+    }
     cw.write(&args.out, args.shards).unwrap();
     report.write(&args.out).unwrap();
 }
